@@ -49,7 +49,7 @@ def bundle_specs(draw):
     pool = [(0, 1000, 0), (0, 1000, 1), (1, 1000, 0), (2, 77, 5)]
     src, tval, seq = pool[base]
     frag = None
-    variant = draw(st.sampled_from(['same', 'same', 'src', 'time', 'seq', 'frag', 'frag-off', 'frag-total', 'own']))
+    variant = draw(st.sampled_from(['same', 'same', 'src', 'time', 'seq', 'frag', 'frag-off', 'frag-total', 'own', 'huge-time']))
     if variant == 'src':
         src = (src + 1) % 3
     elif variant == 'time':
@@ -64,6 +64,8 @@ def bundle_specs(draw):
         frag = [0, 11]
     elif variant == 'own':
         src = 3
+    elif variant == 'huge-time':
+        tval = 2 ** 64 - 1 - base
     rpt = draw(st.sampled_from([0, 0, 1]))
     return [src, tval, seq, frag, draw(st.integers(0, len(DESTS) - 1)), rpt]
 
